@@ -277,8 +277,16 @@ func TestProp_BuilderWiring(t *testing.T) {
 		spec := shape.Spec(dir)
 		spec.ScenarioFn = scenario
 		spec.WaitTimeout = 20 * time.Second
+		// one case in three through the public entry point (the CLI's flag set feeding the builder)
+		viaCLI := rapid.IntRange(0, 2).Draw(rt, "viaCLI") == 0
 		tDo = time.Now()
-		if _, err := vlib.Execute(spec); err != nil {
+		var err error
+		if viaCLI {
+			_, err = vlib.ExecuteCLI(spec)
+		} else {
+			_, err = vlib.Execute(spec)
+		}
+		if err != nil {
 			rt.Fatalf("VERIF-INFRA: cannot execute %s: %v", shape.Desc, err)
 		}
 		mu.Lock()
@@ -289,7 +297,11 @@ func TestProp_BuilderWiring(t *testing.T) {
 		if n := len(times); n > 0 && shape.PerTick > 0 {
 			ticksNeeded = (n + shape.PerTick - 1) / shape.PerTick
 		}
-		stats.Case("blackbox", shape.Desc, ticksNeeded >= 3, []string{"mode-" + shape.Mode}, func() any {
+		cls := []string{"mode-" + shape.Mode}
+		if viaCLI {
+			cls = append(cls, "through-the-cli")
+		}
+		stats.Case("blackbox", shape.Desc, ticksNeeded >= 3, cls, func() any {
 			return map[string]any{"shape": shape.Desc, "iterations": len(times), "ticks_needed": ticksNeeded}
 		})
 		// the m-th iteration (1-based) needs at least ceil(m/maxPerTick) evaluations, the last of which
